@@ -93,10 +93,18 @@ impl PrettyPrint for MechSet {
 }
 
 impl Hash for MechSet {
+  // Two sets are equal regardless of the order their elements were inserted in,
+  // so the hash must not depend on that order either: combine the element
+  // hashes with a commutative operation.
   fn hash<H: Hasher>(&self, state: &mut H) {
+    let mut combined: u64 = 0;
     for x in self.set.iter() {
-      x.hash(state)
+      let mut element_hasher = std::collections::hash_map::DefaultHasher::new();
+      x.hash(&mut element_hasher);
+      combined = combined.wrapping_add(element_hasher.finish());
     }
+    self.set.len().hash(state);
+    combined.hash(state);
   }
 }
 
